@@ -117,7 +117,7 @@ def gen_cases(tier, seed):
             pairs = pairs + [(("lit", 0xFFFF), ("equ", 2, "after")), (("equ", 0xFFFF, "after"), ("lit", 2)), (("equ", 0xFFFE, "after"), ("equ", 1, "after"))]
         for left, right in pairs:
             for op in "+-*/":
-                if "label" in (left[0], right[0]) and pos in ("rmb", "pcr.num", "idx.const", "idx.const.ind", "org"):
+                if "label" in (left[0], right[0]) and pos in ("rmb", "pcr.num", "org"):
                     continue          # label-derived sizes/offsets: label,X is outside the grammar the tool accepts; label,PCR is C03's
                 org = r.choice(ORGS) if pos != "rmb" else 0x1000
                 lines, target, expr, equs, mn = build(pos, left, op, right, org, r)
